@@ -18,6 +18,10 @@ pub mod c03t;
 #[cfg(kani)]
 pub mod c04;
 #[cfg(kani)]
+pub mod c05;
+#[cfg(kani)]
+pub mod c05t;
+#[cfg(kani)]
 pub mod c09;
 #[cfg(kani)]
 pub mod c09t;
@@ -49,5 +53,13 @@ pub mod c15;
 pub mod c15t;
 #[cfg(kani)]
 pub mod c16;
+#[cfg(kani)]
+pub mod c18;
+#[cfg(kani)]
+pub mod gen_files;
+#[cfg(kani)]
+pub mod c20;
+#[cfg(kani)]
+pub mod c18t;
 #[cfg(kani)]
 pub mod c16t;
